@@ -140,9 +140,11 @@ def run(ctx: evid.Ctx) -> None:
     # many complete PDUs in ONE receive call (a page of search entries read from the socket at once)
     for role in ("server", "client"):
         one = FOLLOW[role].pack(K.OPTS)
-        for count in (2, 3, 100, 1023, 1024, 1025, 2048, 5000):
+        for count in (2, 3, 100, 1023, 1024, 1025, 2048, 5000, 12000):
             data = one * count
-            fixed = [[data[p : p + size] for p in range(0, len(data), size)] for size in ((1000, 4096, 333, 1460) if count >= 1000 else (7,))]
+            # read sizes that are prime: reads then (almost) never end on a PDU boundary, so a partial PDU stays pending
+            # while tens of KiB are consumed
+            fixed = [[data[p : p + size] for p in range(0, len(data), size)] for size in ((997, 4099, 4999, 9973, 333, 1460) if count >= 1000 else (7,))]
             for chunks in [[data], [data[:7], data[7:]], [data[: len(data) // 2 + 3], data[len(data) // 2 + 3 :]]] + fixed:
                 ctx.add("transitions", len(chunks))
                 v, outcome = deliver(role, data, chunks)
